@@ -47,6 +47,8 @@ def r1_deserialise(ctx):
         "c": {"outputs": [], "inputs": {"y": ["b", "o2"], "z": "a"}, "payload": 3},
         "t": {"outputs": ["0"], "inputs": {"w": ("b", "o2"), "v": "b"}},
         "iso": {"outputs": ["0"], "inputs": {}, "payload": 5},
+        "s": {"outputs": ["data"], "inputs": {}, "payload": 6},          # exactly one output, and it is a *named* one
+        "u": {"outputs": ["0"], "inputs": {"q": ["s", "data"]}, "payload": 0},  # falsy payload
     }
     from ..terms import FuncRef
     ip = Interp(repo, call_models=_ts_models(), inline={f"{EXP}._deserialise_node", f"{EXP}.default_node_factory", f"{G}.nodes.Node.__init__",
@@ -74,7 +76,7 @@ def r1_deserialise(ctx):
         ctx.ok("C12.R1", loc(fi), "every serialised node is re-created (also isolated ones)")
     sinks = g.args[0] if isinstance(g, Obj) and g.cls.endswith("graph.Graph") and g.args else (g.kwargs.get("sinks") if isinstance(g, Obj) else None)
     names = sorted(s.args[0] for s in sinks if isinstance(s, Obj) and s.args) if isinstance(sinks, list) else None
-    want = ["c", "iso", "t"]
+    want = ["c", "iso", "t", "u"]
     if names != want:
         ctx.violation("C12.R1", fi.qual, loc(fi), "sinks of the rebuilt graph",
                       f"the rebuilt graph is defined by sinks {names}; it must be the nodes no other node consumes: {want} ('t' and 'iso' declare outputs but are terminal) — "
@@ -132,6 +134,51 @@ def r1_deserialise(ctx):
                           f"node {nm} read from {want_d} serialises back to {vkey(outs)[:200]}: writer and reader are not inverse to each other")
         else:
             ctx.ok("C12.R2", loc(sfi), f"node {nm}: serialise(deserialise(data)) == data")
+
+
+def r5_json_path(ctx):
+    """C12.R5: the JSON path adds and removes nothing: to_json hands json.dumps exactly the serialised form of every node of the model
+    graph (also falsy payloads, empty input / output lists), from_json hands deserialise exactly what json.loads returned."""
+    repo = ctx.repo
+    tj, fj = repo.func(f"{EXP}.to_json"), repo.func(f"{EXP}.from_json")
+    ctx.analysed(tj.qual)
+    ctx.analysed(fj.qual)
+    P = _node("p", outputs=["data"], payload=0)
+    Q = _node("q", {"x": _out(P, "data")}, [], payload="")
+    R_ = _node("r", {}, ["0"], payload={"k": []})
+    want = {"p": {"outputs": ["data"], "inputs": {}, "payload": 0}, "q": {"outputs": [], "inputs": {"x": ("p", "data")}, "payload": ""},
+            "r": {"outputs": ["0"], "inputs": {}, "payload": {"k": []}}}
+    cap = {}
+
+    def dumps(run, a, k, n, f):
+        cap["v"] = a[0] if a else None
+        return "JSON-TEXT"
+    g = Obj(f"{G}.graph.Graph", {"sinks": [Q, R_]}, name="GRAPH")
+    ip = Interp(repo, call_models={"json.dumps": dumps, ("method", "nodes"): lambda run, a, k, n, f: [P, Q, R_]},
+                inline={f"{EXP}.serialise", f"{G}.nodes.Node.serialise", f"{G}.nodes.Output.serialise"})
+    ps = [p_ for p_ in ip.explore(tj, args={"graph": g}) if not any(d.key.startswith("hasattr") and d.value for d in p_.decisions)]
+    ctx.evals(len(ps))
+    if not ps or any(p_.exit != ("return", "JSON-TEXT") for p_ in ps):
+        ctx.violation("C12.R5", tj.qual, loc(tj), "to_json returns the JSON text", f"to_json on the model graph ends {[(p_.exit[0], vkey(p_.exit[1])[:60]) for p_ in ps]}")
+    else:
+        got = cap.get("v")
+        norm = lambda d: {n_: {**v, "inputs": {k: (tuple(x) if isinstance(x, (list, tuple)) else x) for k, x in v.get("inputs", {}).items()}} for n_, v in d.items()} if isinstance(d, dict) else d
+        if not isinstance(got, dict) or norm(got) != want:
+            ctx.violation("C12.R5", tj.qual, loc(tj), "JSON text holds the whole serialised graph",
+                          f"nodes p (payload 0, output 'data'), q (payload '', no outputs, input x<-p.data), r (payload {{'k': []}}): json.dumps is given {vkey(got)[:260]}; "
+                          f"expected {vkey(want)[:200]} — a payload JSON represents faithfully (0, '', [], false) must not be dropped")
+        else:
+            ctx.ok("C12.R5", loc(tj), "to_json: json.dumps receives the complete serialised form, falsy payloads and empty lists included")
+    seen = {}
+    LOADED = {"n": {"outputs": [], "inputs": {}, "payload": 0}}
+    ip = Interp(repo, call_models={"json.loads": lambda run, a, k, n, f: LOADED, f"{EXP}.deserialise": lambda run, a, k, n, f: seen.setdefault("arg", a[0] if a else None) and "GRAPH-BACK" or "GRAPH-BACK"})
+    ps = ip.explore(fj, args={"data": "TEXT"})
+    ctx.evals(len(ps))
+    if len(ps) != 1 or ps[0].exit != ("return", "GRAPH-BACK") or seen.get("arg") != LOADED:
+        ctx.violation("C12.R5", fj.qual, loc(fj), "from_json = deserialise(json.loads(text))", f"from_json ends {[(p_.exit[0], vkey(p_.exit[1])[:60]) for p_ in ps]}, deserialise is given "
+                      f"{vkey(seen.get('arg'))[:100]} (json.loads returned {vkey(LOADED)})")
+    else:
+        ctx.ok("C12.R5", loc(fj), "from_json: deserialise receives exactly what json.loads returned")
 
 
 def r2_writer(ctx):
@@ -194,4 +241,4 @@ def r4_cascade_file(ctx):
             ctx.ok("C12.R4", loc(wr), "serialise = dill.dump(serialise(self._graph), f)")
 
 
-RULES = [r1_deserialise, r2_writer, r4_cascade_file]
+RULES = [r1_deserialise, r2_writer, r4_cascade_file, r5_json_path]
